@@ -26,6 +26,8 @@ pub struct Context {
     task: RefCell<Arc<Task>>,
     action: RefCell<Option<Action>>,
     vars: RefCell<Vars>,
+    // the endings reported in this context: a nested review must not be repeated by the outer one
+    reported: RefCell<Vec<(String, TaskState)>>,
 }
 
 impl std::fmt::Debug for Context {
@@ -59,6 +61,7 @@ impl Context {
             action: RefCell::new(None),
             task: RefCell::new(task.clone()),
             vars: RefCell::new(Vars::new()),
+            reported: RefCell::new(Vec::new()),
         }
     }
 
@@ -436,6 +439,16 @@ impl Context {
 
     pub fn emit_task(&self, task: &Arc<Task>) -> Result<()> {
         debug!("ctx::emit_task, task={:?}", task);
+
+        // the ending of a task is reported once
+        let state = task.state();
+        if state.is_completed() {
+            let key = (task.id.clone(), state);
+            if self.reported.borrow().contains(&key) {
+                return Ok(());
+            }
+            self.reported.borrow_mut().push(key);
+        }
 
         // on workflow start
         if let NodeContent::Workflow(_) = &task.node().content {
